@@ -204,12 +204,16 @@ def check_flags(sc, log):
                         return ("write_not_modified", "writer %d (%s) changed its value at t=%d but its output does not read modified" % (src, w["shape"], t)), stats
                 if after is None and before is not None:
                     stats["probe_invalidations"] += 1
+            if pi["m"] != wm and inv_now and pi["m"] == 1 and wm == 0:
+                stats["known_F16"] = stats.get("known_F16", 0) + 1      # consumer reads modified in the invalidation cycle, the producer does not
             if pi["m"] != wm and not inv_now:
                 return ("modified_flag", "t=%d probe %d on %s writer %d reads modified=%d; the producer %s at that time" % (t, probe["id"], w["shape"], src, pi["m"], "wrote" if wm else "did not write")), stats
             exp_v = last["v"] if last is not None else 0
             if pi["v"] != exp_v:
                 return ("valid_flag", "t=%d probe %d on %s writer %d reads valid=%d, producer valid=%d" % (t, probe["id"], w["shape"], src, pi["v"], exp_v)), stats
             exp_lmt = last_mod if last_mod is not None else MIN_DT
+            if invalidated and last is not None and pi["lmt"] != last.get("lmt") and pi["lmt"] != MIN_DT:
+                stats["known_F16"] = stats.get("known_F16", 0) + 1      # after an invalidation the consumer keeps a last-modified-time, the producer reads MIN_DT
             if pi["lmt"] != exp_lmt and not invalidated:
                 return ("last_modified_time", "t=%d probe %d on %s writer %d reads last_modified_time=%s, latest write was at %s" % (t, probe["id"], w["shape"], src, pi["lmt"], exp_lmt)), stats
             if last is not None and last["v"] and pi["val"] != last["val"]:
